@@ -1126,8 +1126,15 @@ def norm_index(it, i, n):
     return i
 
 
+def _note_row_read(it, row):
+    # (ghost) a contract may ask for the READS of rows to be traced: "after a row was handed downstream it is not looked at again"
+    if getattr(it, 'track_row_reads', False):
+        it.emit(Ev('RowRead', obj=row))
+
+
 def getitem(it, obj, key):
     if isinstance(obj, Row):
+        _note_row_read(it, obj)
         k = term(key, StrS)
         if it.term_mode:
             it.guards[-1].append((obj.dom[k], 'KeyError'))
@@ -1391,6 +1398,7 @@ class Unresolved:
 # methods of modelled containers
 
 def _row_get(it, row, key, default=None):
+    _note_row_read(it, row)
     k = term(key, StrS)
     if default is None:
         return it.uncell(z3.If(row.dom[k], row.val[k], Cell.none))
@@ -1403,14 +1411,17 @@ def _row_get(it, row, key, default=None):
 
 
 def _row_items(it, row):
+    _note_row_read(it, row)
     return RowItemsSource(row, 'items')
 
 
 def _row_keys(it, row):
+    _note_row_read(it, row)
     return RowItemsSource(row, 'keys')
 
 
 def _row_values(it, row):
+    _note_row_read(it, row)
     return RowItemsSource(row, 'values')
 
 
@@ -1460,6 +1471,7 @@ def _row_pop(it, row, key, *default):
 
 
 def _row_copy(it, row):
+    _note_row_read(it, row)
     return Row(row.dom, row.val, name=(row.name or 'row') + '_copy')
 
 
